@@ -25,7 +25,7 @@ func register(id, level string, run func(*evid.Run), replay func(json.RawMessage
 
 // engineChecks run real dragonboat engines: a panic in one of its goroutines kills the process, so
 // they run in a child process and the parent turns "child died" into an observation.
-var engineChecks = map[string]bool{"C05": true, "C07": true, "C16": true, "C17": true}
+var engineChecks = map[string]bool{"C05": true, "C07": true, "C14": true, "C16": true, "C17": true}
 
 func supervise(id, level string) int {
 	_ = os.Remove(evid.JournalPath(id))
